@@ -375,6 +375,28 @@ def gen_resize(scn, rng):
     return hist
 
 
+def gen_resize_down(scn, rng):
+    """Instances with data retention placed, a server loses its presence (they are
+    retained), an administrator then rewrites its capacity smaller (`servers` event:
+    the restore on the reloaded server fails for what no longer fits), cycles."""
+    keep = [i + 1 for i, p in enumerate(scn['aprofiles'])
+            if p.get('data_retention_timeout') not in (None, '0s')]
+    napps = rng.randrange(2, len(scn['apps']) + 1)
+    hist = [('CreateApp', [scn['apps'][j], rng.choice(keep) if rng.random() < 0.8
+                           else rng.randrange(len(scn['aprofiles'])) + 1]) for j in range(napps)]
+    hist.append(('Cycle', []))
+    servers = sorted(s for s, k in scn['server_init'].items() if k)
+    small = sorted(range(len(scn['sprofiles'])), key=lambda i: scn['sprofiles'][i]['cap'])[:2]
+    for s in rng.sample(servers, rng.randrange(1, len(servers) + 1)):
+        hist.append(('NodeDown', [s]))
+        hist.append(('SetCapacity', [s, rng.choice(small) + 1]))
+        hist.append(('Cycle', []))
+    if rng.random() < 0.5:
+        hist.append(('Restart', []))
+    hist.append(('Cycle', []))
+    return hist
+
+
 def gen_topology(scn, rng):
     """Focused master-level histories on administrative changes under placed
     instances: a server re-parented (to another rack, or to a bucket nobody
